@@ -7,6 +7,7 @@ import Bng.Model.SubMgr
     new                       => ok
     create s1 m1              => ok|exists <snap>
     assign s1                 => ok|notfound|exhausted <snap>
+    touch s1 activate|wall|unwall => ok|notfound <snap>
     term s1                   => ok|notfound|busy <snap>  | badop (while calls are parked)
     tbegin A s1               => parked|done:ok|done:notfound|done:busy <snap> | badop
     tresume A                 => done:ok <snap> | badop
@@ -43,6 +44,7 @@ def parseOp (toks : List String) : Option Op :=
   | ["term", n] => (parseTagged 's' n).map .term
   | ["tbegin", t, n] => do let t ← tagOf t; let n ← parseTagged 's' n; pure (.tbegin t n)
   | ["tresume", t] => (tagOf t).map .tresume
+  | ["touch", n, k] => if k == "activate" || k == "wall" || k == "unwall" then (parseTagged 's' n).map .touch else none
   | _ => none
 
 def showRes (op : Op) (r : Res) (s : M) : String :=
@@ -148,7 +150,7 @@ def step (st : St) (toks : List String) (impl : String) : St × LineResult :=
     | some m, some op =>
       -- the harness refuses to create a name twice
       match op with
-      | .assign n | .term n =>
+      | .assign n | .term n | .touch n =>
         if known m n then go st m op impl else (st, { modelObs := "nosuch" })
       | .tbegin _ n =>
         if known m n then go st m op impl else (st, { modelObs := "badop" })
